@@ -454,6 +454,38 @@ fn exec_buf(case: &Value) -> Value {
                 run.settle(&name, k);
                 outs.push(json!({"r": "ok"}));
             }
+            "ffi_free" => {
+                // the buffer leaves the way `SecretBuffer::from_secret` hands it out (`shrink_to_fit`, `into_vec`: len = capacity, the
+                // block owned by nobody) and comes back through `askar_buffer_free` (src/ffi/secret.rs)
+                let sb = slots.remove(i);
+                let expect = refs.remove(i);
+                let boxed = tracked(|| sb.into_boxed_slice());
+                run.settle("ffi_free:export", k);
+                let n = boxed.len();
+                if boxed[..] != expect[..] {
+                    run.oracle.push(json!({"sig": "buf:ffi_free:contents-differ", "op_index": k}));
+                }
+                let p = Box::into_raw(boxed) as *mut u8;
+                if n > 0 {
+                    run.trace.push(json!(["e", n]));
+                }
+                LIVE.with(|l| {
+                    let mut l = l.borrow_mut();
+                    l.clear();
+                    if n > 0 {
+                        l.push(p as usize);
+                    }
+                });
+                tracked(|| unsafe { capi::askar_buffer_free(capi::SecretBuf { len: n as i64, data: p }) });
+                let before = run.feat.get("free:buffer-block").and_then(|v| v.as_u64()).unwrap_or(0);
+                run.settle("ffi_free", k);
+                let after = run.feat.get("free:buffer-block").and_then(|v| v.as_u64()).unwrap_or(0);
+                if n > 0 && after == before {
+                    run.oracle.push(json!({"sig": "buf:ffi_free:block-not-released", "op_index": k, "len": n}));
+                }
+                feat_inc(&mut run.feat, "ffi-free");
+                outs.push(json!({"r": "ok", "len": n, "v": jvalue(&expect)}));
+            }
             "into_vec" | "into_boxed" => {
                 let sb = slots.remove(i);
                 let expect = refs.remove(i);
@@ -790,7 +822,20 @@ fn fmt_subject(ty: &str, seed: u64, tag: &str) -> Result<(Vec<Shown>, Vec<(Strin
     };
     let sec32 = secret_bytes(seed, ty, 32);
     Ok(match head {
-        "SecretBytes" => (dbg2(&SecretBytes::from_slice(&sec32)), vec![("bytes".into(), sec32)]),
+        "SecretBytes" => {
+            let sb = SecretBytes::from_slice(&sec32);
+            let mut sh = dbg2(&sb);
+            if arg == "eq" {
+                // the comparison impls (`ct_eq`, `PartialEq` with itself / `&[u8]` / `Vec<u8>`) print nothing; their verdicts are shown
+                let other = SecretBytes::from_slice(&secret_bytes(seed ^ 1, ty, 32));
+                let v = format!("{} {} {} {} {}", sb == sb.clone(), sb == other, sb == &sec32[..], sb == sec32.clone(), sb == secret_bytes(seed ^ 1, ty, 32));
+                if v != "true false true true false" {
+                    return Err(format!("SecretBytes comparisons: {}", v));
+                }
+                sh.push(Shown { what: "debug", text: v });
+            }
+            (sh, vec![("bytes".into(), sec32)])
+        }
         "ArrayKey" => {
             use askar_crypto::buffer::ArrayKey;
             use askar_crypto::generic_array::typenum::U32;
@@ -902,12 +947,14 @@ fn fmt_subject(ty: &str, seed: u64, tag: &str) -> Result<(Vec<Shown>, Vec<(Strin
         "Error" => {
             let mut shown = vec![];
             let mut secrets = vec![];
+            let mut chain = 0usize;
             match arg {
                 "secret_bytes_len" => {
                     let s = secret_bytes(seed, ty, 31);
                     let err = LocalKey::from_secret_bytes(KeyAlg::from_str("ed25519").unwrap(), &s).err().ok_or("no error")?;
-                    shown.extend(dbg2(&err));
-                    shown.push(disp(&err));
+                    let (sh, d) = err_shown(&err);
+                    shown.extend(sh);
+                    chain = d;
                     secrets.push(("key material".to_string(), s));
                 }
                 "jwk_mismatch" => {
@@ -920,23 +967,26 @@ fn fmt_subject(ty: &str, seed: u64, tag: &str) -> Result<(Vec<Shown>, Vec<(Strin
                     let mut j: Value = serde_json::from_str(&good).map_err(|x| e(&x))?;
                     j["x"] = pubj["x"].clone();
                     let err = LocalKey::from_jwk(&j.to_string()).err().ok_or("no error")?;
-                    shown.extend(dbg2(&err));
-                    shown.push(disp(&err));
+                    let (sh, d) = err_shown(&err);
+                    shown.extend(sh);
+                    chain = d;
                     secrets.push(("key material".to_string(), s));
                 }
                 "jwk_garbage" => {
                     let s = key_secret(seed, "ed25519");
                     let j = format!("{{\"kty\":\"OKP\",\"crv\":\"Ed25519\",\"x\":\"AA\",\"d\":\"{}\"", b64(&s, true)); // truncated JSON
                     let err = LocalKey::from_jwk(&j).err().ok_or("no error")?;
-                    shown.extend(dbg2(&err));
-                    shown.push(disp(&err));
+                    let (sh, d) = err_shown(&err);
+                    shown.extend(sh);
+                    chain = d;
                     secrets.push(("key material".to_string(), s));
                 }
                 "bad_raw_key" => {
                     let w = format!("0OIl-{}", secret_word(seed, ty, 30)); // not base58
                     let err = block_on(Store::provision("sqlite://:memory:", StoreKeyMethod::RawKey, PassKey::from(w.clone()), None, true)).err().ok_or("no error")?;
-                    shown.extend(dbg2(&err));
-                    shown.push(disp(&err));
+                    let (sh, d) = err_shown(&err);
+                    shown.extend(sh);
+                    chain = d;
                     secrets.push(("raw store key (text)".to_string(), w.into_bytes()));
                 }
                 "wrong_pass_key" => {
@@ -948,8 +998,9 @@ fn fmt_subject(ty: &str, seed: u64, tag: &str) -> Result<(Vec<Shown>, Vec<(Strin
                     let st = block_on(Store::provision(&uri, StoreKeyMethod::RawKey, PassKey::from(raw.clone()), None, true)).map_err(|x| e(&x))?;
                     block_on(st.close()).ok();
                     let err = block_on(Store::open(&uri, Some(StoreKeyMethod::RawKey), PassKey::from(raw2.clone()), None)).err().ok_or("no error")?;
-                    shown.extend(dbg2(&err));
-                    shown.push(disp(&err));
+                    let (sh, d) = err_shown(&err);
+                    shown.extend(sh);
+                    chain = d;
                     rm_db(&path);
                     secrets.push(("raw store key (text)".to_string(), raw.into_bytes()));
                     secrets.push(("wrong raw store key (text)".to_string(), raw2.into_bytes()));
@@ -962,14 +1013,182 @@ fn fmt_subject(ty: &str, seed: u64, tag: &str) -> Result<(Vec<Shown>, Vec<(Strin
                     let n = ct.len();
                     ct[n - 1] ^= 1;
                     let err = k.aead_decrypt(&ct[..], &[1u8; 12], b"").err().ok_or("no error")?;
-                    shown.extend(dbg2(&err));
-                    shown.push(disp(&err));
+                    let (sh, d) = err_shown(&err);
+                    shown.extend(sh);
+                    chain = d;
+                    secrets.push(("key material".to_string(), s));
+                    secrets.push(("plaintext".to_string(), sec32));
+                }
+                "storage_garbage_file" | "top_garbage_file" | "storage_on_directory" => {
+                    // a file that is not a database / a directory, opened with a URI carrying credentials
+                    let path = scratch(&format!("fmt-{}-{}-{}", arg, tag, seed));
+                    rm_db(&path);
+                    std::fs::remove_dir(&path).ok();
+                    if arg == "storage_on_directory" {
+                        std::fs::create_dir_all(&path).map_err(|x| e(&x))?;
+                    } else {
+                        std::fs::write(&path, secret_bytes(seed, "garbage", 4096)).map_err(|x| e(&x))?;
+                    }
+                    let pw = format!("pw-{}", secret_word(seed, "uripw", 18));
+                    let apw = special_word(seed, "adminpw");
+                    let raw = b58(&sec32);
+                    let uri = format!("sqlite://user:{}@{}?admin_password={}", pw, path, pct(&apw));
+                    if arg == "top_garbage_file" {
+                        let err = block_on(Store::open(&uri, Some(StoreKeyMethod::RawKey), PassKey::from(raw.clone()), None)).err().ok_or("no error")?;
+                        let (sh, d) = err_shown(&err);
+                        shown.extend(sh);
+                        chain = d;
+                    } else {
+                        use askar_storage::ManageBackend;
+                        let err = if arg == "storage_on_directory" {
+                            block_on(uri.as_str().provision_backend(askar_storage::StoreKeyMethod::RawKey, askar_storage::PassKey::from(raw.clone()), None, false)).err().ok_or("no error")?
+                        } else {
+                            block_on(uri.as_str().open_backend(Some(askar_storage::StoreKeyMethod::RawKey), askar_storage::PassKey::from(raw.clone()), None)).err().ok_or("no error")?
+                        };
+                        let (sh, d) = err_shown(&err);
+                        shown.extend(sh);
+                        chain = d;
+                    }
+                    rm_db(&path);
+                    std::fs::remove_dir(&path).ok();
+                    secrets.push(("uri password".to_string(), pw.into_bytes()));
+                    secrets.push(("uri admin_password (percent-decoded)".to_string(), apw.into_bytes()));
+                    secrets.push(("raw store key (text)".to_string(), raw.into_bytes()));
+                }
+                "storage_missing_dir" | "storage_unknown_scheme" | "storage_bad_param" => {
+                    use askar_storage::ManageBackend;
+                    let pw = format!("pw-{}", secret_word(seed, "uripw", 18));
+                    let apw = special_word(seed, "adminpw");
+                    let raw = b58(&sec32);
+                    let uri = match arg {
+                        "storage_missing_dir" => format!("sqlite://user:{}@/nonexistent-dir-c20/x.db?admin_password={}", pw, pct(&apw)),
+                        "storage_unknown_scheme" => format!("mysql://user:{}@db.example/db?admin_password={}", pw, pct(&apw)),
+                        _ => format!("sqlite://user:{}@/nonexistent-dir-c20/x.db?admin_password={}&busy_timeout={}", pw, pct(&apw), pct(&apw)),
+                    };
+                    let err = block_on(uri.as_str().provision_backend(askar_storage::StoreKeyMethod::RawKey, askar_storage::PassKey::from(raw.clone()), None, false)).err().ok_or("no error")?;
+                    let (sh, d) = err_shown(&err);
+                    shown.extend(sh);
+                    chain = d;
+                    secrets.push(("uri password".to_string(), pw.into_bytes()));
+                    secrets.push(("uri admin_password (percent-decoded)".to_string(), apw.into_bytes()));
+                    secrets.push(("raw store key (text)".to_string(), raw.into_bytes()));
+                }
+                "storage_kind_only" => {
+                    // a statement failure that reaches the caller through `From<sqlx::Error>`: no message, only kind and cause
+                    // (a tag filter nested beyond SQLite's expression depth), in a store holding secret records
+                    use askar_storage::entry::{EntryKind, EntryOperation, TagFilter};
+                    use askar_storage::{Backend, BackendSession, ManageBackend};
+                    let raw = b58(&sec32);
+                    let tv = format!("tv-{}", secret_word(seed, "tagvalue", 14));
+                    let mut f = TagFilter::is_eq("t", tv.clone());
+                    for i in 0..1100 {
+                        f = if i % 2 == 0 { TagFilter::all_of(vec![f, TagFilter::is_eq("u", "1")]) } else { TagFilter::any_of(vec![f, TagFilter::is_eq("u", "2")]) };
+                    }
+                    // through the storage crate's own API (its own `Display` / `source`), then the same through the top-level crate
+                    let be = block_on("sqlite://:memory:".provision_backend(askar_storage::StoreKeyMethod::RawKey, askar_storage::PassKey::from(raw.clone()), None, true)).map_err(|x| e(&x))?;
+                    let res = block_on(async {
+                        let mut sess = be.session(None, false).map_err(|x| e(&x))?;
+                        sess.update(EntryKind::Item, EntryOperation::Insert, "cat", "name", Some(&sec32[..]), None, None).await.map_err(|x| e(&x))?;
+                        let r = sess.remove_all(Some(EntryKind::Item), Some("cat"), Some(f.clone())).await;
+                        sess.close(false).await.ok();
+                        Ok::<_, String>(r)
+                    })?;
+                    let err = res.err().ok_or("no error")?;
+                    if err.message().is_some() {
+                        return Err("storage error carries a message".into());
+                    }
+                    let (sh, d) = err_shown(&err);
+                    shown.extend(sh);
+                    chain = d;
+                    block_on(be.close()).ok();
+                    let top: aries_askar::Error = err.into();
+                    shown.extend(err_shown(&top).0);
+                    secrets.push(("raw store key (text)".to_string(), raw.into_bytes()));
+                    secrets.push(("record value".to_string(), sec32.clone()));
+                    secrets.push(("tag value".to_string(), tv.into_bytes()));
+                }
+                "crypto_jwk_garbage" => {
+                    use askar_crypto::jwk::JwkParts;
+                    let s = key_secret(seed, "ed25519");
+                    let j = format!("{{\"kty\":\"OKP\",\"crv\":\"Ed25519\",\"x\":\"AA\",\"d\":\"{}\"", b64(&s, true)); // truncated JSON
+                    let err = JwkParts::try_from_str(&j).err().ok_or("no error")?;
+                    let (sh, d) = err_shown(&err);
+                    shown.extend(sh);
+                    chain = d;
+                    secrets.push(("key material".to_string(), s));
+                }
+                "crypto_secret_len" => {
+                    use askar_crypto::alg::ed25519::Ed25519KeyPair;
+                    use askar_crypto::repr::KeySecretBytes;
+                    let s = secret_bytes(seed, ty, 31);
+                    let err = Ed25519KeyPair::from_secret_bytes(&s).err().ok_or("no error")?;
+                    let (sh, d) = err_shown(&err);
+                    shown.extend(sh);
+                    chain = d;
+                    secrets.push(("key material".to_string(), s));
+                }
+                "crypto_bad_tag" => {
+                    use askar_crypto::alg::aes::{A256Gcm, AesKey};
+                    use askar_crypto::encrypt::KeyAeadInPlace;
+                    use askar_crypto::repr::KeySecretBytes;
+                    let s = key_secret(seed, "a256gcm");
+                    let k = AesKey::<A256Gcm>::from_secret_bytes(&s).map_err(|x| e(&x))?;
+                    let mut buf = SecretBytes::from_slice(&sec32);
+                    k.encrypt_in_place(&mut buf, &[1u8; 12], b"").map_err(|x| e(&x))?;
+                    let n = buf.len();
+                    buf.as_mut()[n - 1] ^= 1;
+                    let err = k.decrypt_in_place(&mut buf, &[1u8; 12], b"").err().ok_or("no error")?;
+                    let (sh, d) = err_shown(&err);
+                    shown.extend(sh);
+                    chain = d;
                     secrets.push(("key material".to_string(), s));
                     secrets.push(("plaintext".to_string(), sec32));
                 }
                 _ => return Err(format!("unknown error scenario {}", arg)),
             }
+            shown.push(Shown { what: "chain", text: chain.to_string() });
             (shown, secrets)
+        }
+        "Scan" => {
+            // `Debug` of a live `Scan` over a store that holds records carrying the secret
+            let raw = b58(&sec32);
+            let st = mem_store(&raw);
+            let secrets = vec![("record value".to_string(), sec32.clone()), ("raw store key (text)".to_string(), raw.clone().into_bytes())];
+            let shown = block_on(async {
+                let mut sess = st.session(None).await.map_err(|x| e(&x))?;
+                sess.insert("cat", "name", &sec32, None, None).await.map_err(|x| e(&x))?;
+                drop(sess);
+                let mut sc = st.scan(None, Some("cat".into()), None, None, None, None, false).await.map_err(|x| e(&x))?;
+                let mut sh = dbg2(&sc);
+                let _ = sc.fetch_next().await.map_err(|x| e(&x))?;
+                sh.extend(dbg2(&sc));
+                drop(sc);
+                Ok::<_, String>(sh)
+            })?;
+            block_on(st.close()).ok();
+            (shown, secrets)
+        }
+        "Obs" => {
+            // outside the property's list ("keys, pass keys, secret buffers, store handles and errors"): what these print is recorded
+            // as an observation, never as a failure
+            use aries_askar::entry::{Entry, EntryKind, EntryTag, TagFilter};
+            let tv = format!("tv-{}", secret_word(seed, ty, 18));
+            match arg {
+                "SecretBytesAsHex" => {
+                    let sb = SecretBytes::from_slice(&sec32);
+                    let mut sh = vec![disp(&sb.as_hex())];
+                    sh.extend(dbg2(&sb.as_hex()));
+                    (sh, vec![("bytes".into(), sec32)])
+                }
+                "EntryTagPlaintext" => (dbg2(&EntryTag::Plaintext("t".into(), tv.clone())), vec![("plaintext tag value".into(), tv.into_bytes())]),
+                "EntryTagEncrypted" => (dbg2(&EntryTag::Encrypted("t".into(), tv.clone())), vec![("tag value".into(), tv.into_bytes())]),
+                "EntryTags" => {
+                    let en = Entry::new(EntryKind::Item, "cat", "name", &sec32[..], vec![EntryTag::Encrypted("t".into(), tv.clone())]);
+                    (dbg2(&en), vec![("tag value".into(), tv.into_bytes())])
+                }
+                "TagFilter" => (dbg2(&TagFilter::is_eq("t", tv.clone())), vec![("tag value".into(), tv.into_bytes())]),
+                _ => return Err(format!("unknown observation {}", arg)),
+            }
         }
         _ => return Err(format!("unknown type {}", ty)),
     })
@@ -986,21 +1205,47 @@ fn exec_fmt(case: &Value, tag: &str) -> Value {
         Ok((shown, secrets)) => {
             let mut oracle = vec![];
             let mut leak = false;
+            let obs = head == "Obs";
+            let mut chain: Option<u64> = None;
             for sh in &shown {
+                if sh.what == "chain" {
+                    chain = sh.text.parse().ok();
+                    continue;
+                }
                 feat_inc(&mut feat, &format!("shown:{}", sh.what));
+                if std::env::var("VERIF_C20_SHOW").is_ok() {
+                    eprintln!("[{}] {}: {}", ty, sh.what, sh.text.chars().take(300).collect::<String>());
+                }
                 for (label, sec) in &secrets {
                     let enc = find_secret(&sh.text, sec);
                     if !enc.is_empty() {
                         leak = true;
+                        if obs {
+                            feat_inc(&mut feat, &format!("obs:{}:{}-prints-contents", ty, sh.what));
+                            continue;
+                        }
                         if sh.what != "debug-alt" || oracle.is_empty() {
-                            oracle.push(json!({"sig": format!("fmt:{}:{}:prints-secret", ty, if sh.what == "display" { "display" } else { "debug" }),
+                            let ch = match sh.what { "debug-alt" => "debug", w => w };
+                            oracle.push(json!({"sig": format!("fmt:{}:{}:prints-secret", ty, ch),
                                                "secret": label, "encodings": enc, "output": sh.text.chars().take(400).collect::<String>()}));
                         }
                     }
                 }
             }
             oracle.dedup_by(|a, b| a["sig"] == b["sig"]);
-            json!({"out": {"leak": leak}, "oracle": oracle, "feat": feat})
+            let mut out = Map::new();
+            out.insert("leak".into(), json!(leak));
+            if obs {
+                out.insert("obs".into(), json!(true));
+            }
+            if let Some(c) = chain {
+                // errors: length of the `source()` chain (where a cause survives the conversions is a fact of the code)
+                out.insert("chain".into(), json!(c));
+                if c > 0 {
+                    feat_inc(&mut feat, "err:with-cause");
+                }
+            }
+            json!({"out": out, "oracle": oracle, "feat": feat})
         }
     }
 }
@@ -1104,6 +1349,9 @@ fn exec_log(case: &Value, tag: &str) -> Value {
                     steps.push(("insert".into(), true));
                     let dup = s.insert(&cat, &name, &value, None, None).await;
                     steps.push(("insert-duplicate".into(), dup.is_ok()));
+                    if let Err(err) = &dup {
+                        CAPTURED.lock().unwrap().push(err_line(err));
+                    }
                     let f = s.fetch(&cat, &name, false).await.map_err(|x| e(&x))?;
                     steps.push(("fetch".into(), f.is_some()));
                     let filt = TagFilter::all_of(vec![TagFilter::is_eq(tn.clone(), tv.clone()), TagFilter::is_like(format!("~{}", ptn), format!("{}%", &ptv[..6]))]);
@@ -1114,6 +1362,9 @@ fn exec_log(case: &Value, tag: &str) -> Value {
                     s.replace(&cat, &name, value2.as_bytes(), Some(&tags), None).await.map_err(|x| e(&x))?;
                     let miss = s.replace(&cat, "absent", &value, None, None).await;
                     steps.push(("replace-missing".into(), miss.is_ok()));
+                    if let Err(err) = &miss {
+                        CAPTURED.lock().unwrap().push(err_line(err));
+                    }
                     let k = LocalKey::from_secret_bytes(KeyAlg::from_str("ed25519").unwrap(), &keysec).map_err(|x| e(&x))?;
                     let k2 = LocalKey::from_secret_bytes(KeyAlg::from_str("a256gcm").unwrap(), &keysec2).map_err(|x| e(&x))?;
                     s.insert_key("key-one", &k, Some("meta"), None, Some(&tags), None).await.map_err(|x| e(&x))?;
@@ -1149,13 +1400,19 @@ fn exec_log(case: &Value, tag: &str) -> Value {
                     st2.close().await.map_err(|x| e(&x))?;
                     let bad = Store::open(&uri, Some(method.clone()), PassKey::from(pass.clone()), None).await;
                     steps.push(("open-old-key".into(), bad.is_ok()));
+                    if let Err(err) = &bad {
+                        CAPTURED.lock().unwrap().push(err_line(err));
+                    }
                     let bad = Store::open(&uri, None, PassKey::from(wrong.clone()), None).await;
                     steps.push(("open-wrong-pass".into(), bad.is_ok()));
                     if let Err(err) = &bad {
-                        CAPTURED.lock().unwrap().push(format!("RETURNED-ERROR {} / {:?}", err, err));
+                        CAPTURED.lock().unwrap().push(err_line(err));
                     }
                     let bad = Store::open(&format!("{}-missing", uri), None, PassKey::from(wrong.clone()), None).await;
                     steps.push(("open-missing".into(), bad.is_ok()));
+                    if let Err(err) = &bad {
+                        CAPTURED.lock().unwrap().push(err_line(err));
+                    }
                     let rm = Store::remove(&uri).await.map_err(|x| e(&x))?;
                     steps.push(("remove".into(), rm));
                     Ok::<(), String>(())
@@ -1192,7 +1449,8 @@ fn exec_log(case: &Value, tag: &str) -> Value {
                 });
                 steps.push((format!("{}-{}", entry, which), res.is_ok()));
                 if let Err(err) = &res {
-                    CAPTURED.lock().unwrap().push(format!("RETURNED-ERROR {} / {:?}", err, err));
+                    CAPTURED.lock().unwrap().push(err_line(err));
+                    feat_inc(&mut feat, "returned-error-rendered");
                 }
             }
             _ => return Err(format!("unknown scenario {}", scenario)),
@@ -2090,7 +2348,9 @@ impl LogRun {
     }
 }
 
-fn ffilog_entry_list(run: &mut LogRun, l: usize) -> usize {
+/// reads every row of an entry list (value, tags, name) and frees it; `single`: the result of `askar_session_fetch`, whose
+/// `askar_entry_list_count` is 0 by construction (`FfiResultList::Single`: `len()` = 0) although row 0 exists
+fn ffilog_entry_list(run: &mut LogRun, l: usize, single: bool) -> usize {
     use capi::*;
     let l = P(l as *const u8);
     if l.0.is_null() {
@@ -2098,6 +2358,9 @@ fn ffilog_entry_list(run: &mut LogRun, l: usize) -> usize {
     }
     let mut n = 0i32;
     unsafe { askar_entry_list_count(l, &mut n) };
+    if single {
+        n = 1;
+    }
     for i in 0..n {
         let mut b = NOBUF;
         if run.sync("entry_list_get_value", unsafe { askar_entry_list_get_value(l, i, &mut b) }) {
@@ -2188,12 +2451,11 @@ pub fn exec_ffilog_child(case: &Value, tag: &str) -> Value {
                     run.step("insert-duplicate", dup);
                     let id = new_cb_id();
                     let c = unsafe { askar_session_fetch(se, cat.p(), name.p(), 0, Some(cb_ptr), id) };
-                    let got = run.wait("session_fetch", c, id).map_or(0, |l| ffilog_entry_list(&mut run, l.1));
-                    run.texts.push(format!("DEBUG fetch got {}", got));
+                    let got = run.wait("session_fetch", c, id).map_or(0, |l| ffilog_entry_list(&mut run, l.1, true));
                     run.step("fetch", got == 1);
                     let id = new_cb_id();
                     let c = unsafe { askar_session_fetch_all(se, cat.p(), filt.p(), -1, std::ptr::null(), 0, 0, Some(cb_ptr), id) };
-                    let got = run.wait("session_fetch_all", c, id).map_or(0, |l| ffilog_entry_list(&mut run, l.1));
+                    let got = run.wait("session_fetch_all", c, id).map_or(0, |l| ffilog_entry_list(&mut run, l.1, false));
                     run.step("fetch_all", got == 2);
                     let id = new_cb_id();
                     let c = unsafe { askar_session_count(se, cat.p(), filt.p(), Some(cb_i64), id) };
@@ -2309,7 +2571,7 @@ pub fn exec_ffilog_child(case: &Value, tag: &str) -> Value {
                         let id = new_cb_id();
                         let c = unsafe { askar_scan_next(sc, Some(cb_ptr), id) };
                         match run.wait("scan_next", c, id) {
-                            Some(l) if l.1 != 0 => seen += ffilog_entry_list(&mut run, l.1),
+                            Some(l) if l.1 != 0 => seen += ffilog_entry_list(&mut run, l.1, false),
                             _ => break,
                         }
                     }
@@ -2589,7 +2851,7 @@ fn gen_buf_random(r: &mut Rng, id: String, thorough: bool) -> Value {
             67..=71 => { let ps = pick_size(r, thorough); ops.push(json!({"op": "ensure", "i": i, "n": *r.pick(&[0, 1, ps, len, len + 1, len * 2])})) }
             72..=77 => ops.push(json!({"op": "shrink", "i": i})),
             78..=80 => { ops.push(json!({"op": "clear", "i": i})); lens[i] = 0; }
-            81..=82 => { ops.push(json!({"op": "clear", "i": i})); lens[i] = 0; }
+            81..=82 => { ops.push(json!({"op": "ffi_free", "i": i})); lens.remove(i); }
             83..=88 => {
                 if lens.len() < 5 { ops.push(json!({"op": "clone", "i": i})); lens.push(len); }
             }
@@ -2638,7 +2900,10 @@ fn gen_buf_systematic(out: &mut Vec<Value>, thorough: bool) {
 fn fmt_types() -> Vec<String> {
     let mut t: Vec<String> = ["SecretBytes", "ArrayKey", "PassKey", "Entry", "Options", "Options:query", "Options:query-special", "PostgresStoreOptions", "PostgresStoreOptions:query", "PostgresStoreOptions:query-special",
                               "Argon2", "BlsKeyGen", "RandomDet", "Encrypted", "KeyEntry", "Store", "Session",
-                              "Error:secret_bytes_len", "Error:jwk_mismatch", "Error:jwk_garbage", "Error:bad_raw_key", "Error:wrong_pass_key", "Error:decrypt_bad_tag"]
+                              "Error:secret_bytes_len", "Error:jwk_mismatch", "Error:jwk_garbage", "Error:bad_raw_key", "Error:wrong_pass_key", "Error:decrypt_bad_tag",
+                              "Error:storage_garbage_file", "Error:top_garbage_file", "Error:storage_on_directory", "Error:storage_missing_dir", "Error:storage_unknown_scheme",
+                              "Error:storage_bad_param", "Error:storage_kind_only", "Error:crypto_jwk_garbage", "Error:crypto_secret_len", "Error:crypto_bad_tag",
+                              "SecretBytes:eq", "Scan", "Obs:SecretBytesAsHex", "Obs:EntryTagPlaintext", "Obs:EntryTagEncrypted", "Obs:EntryTags", "Obs:TagFilter"]
         .iter().map(|s| s.to_string()).collect();
     for (a, _) in ALGS.iter() {
         t.push(format!("Key:{}", a));
